@@ -1,4 +1,51 @@
-(* C01 — property theorems (under construction: see Engine/Sound.v, Engine/Complete.v) *)
-From Coq Require Import List ZArith.
-From AV Require Import Engine.Core Engine.Sem Engine.Eval Engine.Validate.
+(* C01 — run() computes exactly the least model of the rules over the input facts.
+   Property theorems only; proofs are in Engine/{EvalSpec,NaiveLemmas,Strata,SemiNaive,Main}.v.
+
+   Model: Engine/Eval.v (run_plan executes the plan dumped from the real macro; Engine/Validate.v
+   validate is the proved-sound acceptance check for plans); specification: Engine/Sem.v. *)
+From Coq Require Import List ZArith Bool.
+From AV Require Import Engine.Core Engine.Sem Engine.Eval Engine.Validate Engine.Naive Engine.Interface Engine.Main Engine.Vocab Engine.Examples.
 Import ListNotations.
+
+(* for every interpretation of the expression symbols, every run-time join-order oracle, every program without
+   aggregates, every plan accepted by the validator, every finite input and every terminating run: the rows after
+   run() are the least model — they contain the input, are closed under every rule, and are contained in every
+   closed superset of the input (every tuple present is derivable, every derivable tuple is present) *)
+Theorem c01_least_model : forall (I : interp) (swap : list tuple -> list tuple -> bool) arities P pl fuel F0 st,
+  arities_functional arities -> wf_facts arities F0 = true -> no_agg P = true ->
+  validate arities P pl = true ->
+  run_plan I swap fuel pl (init_state F0) = Some st ->
+  least_model I P F0 (rows st).
+Proof. intros I swap arities P pl fuel F0 st H1 H2 H3 H4 H5. exact (proj1 (run_plan_correct_full I swap arities P pl fuel F0 st H1 H2 H3 H4 H5)). Qed.
+
+(* input facts are part of the result, unmodified and in place; what is added is new and duplicate free *)
+Theorem c01_inputs_kept : forall (I : interp) swap arities P pl fuel F0 st,
+  arities_functional arities -> wf_facts arities F0 = true -> no_agg P = true ->
+  validate arities P pl = true ->
+  run_plan I swap fuel pl (init_state F0) = Some st ->
+  exists added, rows st = F0 ++ added /\ NoDup added /\ (forall f, In f added -> ~ In f F0).
+Proof. intros I swap arities P pl fuel F0 st H1 H2 H3 H4 H5. exact (proj2 (run_plan_correct_full I swap arities P pl fuel F0 st H1 H2 H3 H4 H5)). Qed.
+
+(* evaluation stops only when no rule can add anything: the final rows are closed *)
+Theorem c01_stops_only_at_fixpoint : forall (I : interp) swap arities P pl fuel F0 st,
+  arities_functional arities -> wf_facts arities F0 = true -> no_agg P = true ->
+  validate arities P pl = true ->
+  run_plan I swap fuel pl (init_state F0) = Some st ->
+  forall f, derives I P (rows st) f -> In f (rows st).
+Proof. intros I swap arities P pl fuel F0 st H1 H2 H3 H4 H5. exact (proj1 (proj2 (proj1 (run_plan_correct_full I swap arities P pl fuel F0 st H1 H2 H3 H4 H5)))). Qed.
+
+(* least models are unique as sets, and the executable oracle used by the correspondence runs computes one *)
+Theorem c01_least_model_unique : forall I P F0 M1 M2, least_model I P F0 M1 -> least_model I P F0 M2 -> same_set M1 M2.
+Proof. exact least_model_unique. Qed.
+Theorem c01_oracle_correct : forall I P fuel F0 M, no_agg P = true -> naive_fix I fuel P F0 = Some M -> least_model I P F0 M.
+Proof. exact naive_fix_correct. Qed.
+
+(* non-vacuity: transitive closure on a 4-cycle with a tail, with the plan the real macro produced *)
+Example c01_example_hypotheses : validate tc_arities tc_prog tc_plan = true /\ no_agg tc_prog = true /\ wf_facts tc_arities tc_input = true.
+Proof. exact tc_hyps. Qed.
+Example c01_example_runs : exists st, run_plan std_interp std_swap 20 tc_plan (init_state tc_input) = Some st /\ length (rows st) = 25%nat.
+Proof. exact tc_runs. Qed.
+
+Print Assumptions c01_least_model. Print Assumptions c01_inputs_kept. Print Assumptions c01_stops_only_at_fixpoint.
+Print Assumptions c01_least_model_unique. Print Assumptions c01_oracle_correct.
+Print Assumptions c01_example_hypotheses. Print Assumptions c01_example_runs.
